@@ -3004,6 +3004,15 @@ func makeInt(f flag, bits uint64, t Type) Value {
 	var ptr unsafe.Pointer
 	switch typ.Size() {
 	case 1, 2, 4:
+		// The value is kept in the pointer word itself and read back whole by
+		// Int and Uint: keep only the bits of the destination width, sign-extended
+		// for signed kinds (Convert(int64(300)) to int8 is 44, not 300).
+		shift := 64 - 8*uint(typ.Size())
+		if k := Kind(typ.Kind()); k >= Int && k <= Int64 {
+			bits = uint64(int64(bits<<shift) >> shift)
+		} else {
+			bits = bits << shift >> shift
+		}
 		ptr = unsafe.Pointer(uintptr(bits))
 	case 8:
 		if is64bit {
